@@ -78,6 +78,8 @@ TS_PROGRAMS = [
     ('ts-nonjson1', 'type X = {d: Date, b?: bigint};', 'X'),
     ('ts-nonjson2', 'type X = {m: Map<string, number>, s?: Set<string>};', 'X'),
     ('ts-nonjson3', 'type X = [Uint8Array, Float64Array | null];', 'X'),
+    ('ts-disc-index', "type Sh = {kind: 'labels', [k: string]: string} | {kind: 'c', r: number};", 'Sh'),
+    ('ts-tuple-rest-obj', 'type T = [string, ...{x: number}[]];', 'T'),
     ('ts-overlap', 'type O = {a: string} | {a: string, b: number} | {b?: number, c: {d: boolean}};', 'O'),
 ]
 
@@ -344,7 +346,7 @@ def leaf_kinds_needed(s, defs, acc=None, seen=None):
 def mid_kinds_for(spec, defs, tier):
     """kinds tried at positions below the root (the root gets the full list): the JSON kinds plus bigint as non-JSON representative"""
     feats = spec_features(spec, defs)
-    L = min(3, max(1, max_tuple(spec, defs) + 1))
+    L = min(3, max(1, max_tuple(spec, defs) + (2 if 'tuple-rest' in feats else 1)))     # a tuple with rest: two rest elements
     if tier == 'quick':
         kinds = ['undefined', 'null', 'number', 'string'] + [f'array{i}' for i in range(1, L + 1)] + ['object']
     else:
@@ -371,7 +373,7 @@ def mid_kinds_for(spec, defs, tier):
 
 def kinds_for(spec, defs, tier):
     feats = spec_features(spec, defs)
-    L = min(3, max(1, max_tuple(spec, defs) + 1))
+    L = min(3, max(1, max_tuple(spec, defs) + (2 if 'tuple-rest' in feats else 1)))     # a tuple with rest: two rest elements
     if tier != 'quick':
         L = max(L, 2)
     kinds = ['undefined', 'null', 'true', 'number', 'string', 'bigint', 'date', 'symbol'] + [f'array{i}' for i in range(L + 1)] + ['object']
